@@ -145,10 +145,17 @@ func runFine(rep *vh.Report, sc Scenario) {
 	rep.Count("traces_validated_against_impl", 1)
 	out := map[string]any{"steps": res.executed, "of": len(sc.Steps), "diverged": res.mismatch, "deadlocked": res.deadlocked, "completed": res.completed}
 	rep.Set("fine_"+sc.Name, out)
+	out["asleep"], out["woke"] = res.asleep, res.woke
 	switch {
+	case len(res.asleep) > 0:
+		rep.Violate("C17/pool/waiter-not-woken",
+			fmt.Sprintf("next(): the waiter's tryGet failed, then another caller made a peer active, then the waiter read hasPeerCh (schedule forced with the gate at next.loop): "+
+				"it stayed asleep for %s with a live context and an active peer, no other goroutine running; proof:\n%s", wakeWatchdog, res.proof), replayObj)
 	case res.deadlocked:
 		rep.Violate("C17/pool/deadlock/putOnCooldown-vs-releaseExpired",
 			"lock-order deadlock reproduced on the real pool with the schedule TLC found; proof:\n"+res.proof, replayObj)
+	case sc.Expect == "sleeping-waiter" && res.mismatch != "":
+		rep.Inconclusivef("fine trace %s: %s", sc.Name, res.mismatch)
 	case sc.Expect == "deadlock" && res.mismatch == "" && !res.completed:
 		rep.Inconclusivef("fine trace %s: no deadlock proved but the goroutines did not all finish", sc.Name)
 	}
